@@ -100,106 +100,220 @@ Example narrow_candidates : narrow [] (SNarrowed [SInt; SStr]) SStr = SStr. Proo
 Example narrow_no_candidate : is_err (narrow [] (SNarrowed [SInt; SStr]) SBool) = true. Proof. vm_compute. reflexivity. Qed.
 Example narrow_unknown_ref : is_err (narrow [] (SRef (b "n")) SInt) = true. Proof. vm_compute. reflexivity. Qed.
 
-(* ---- C07: Known classes.  Each program evaluates to completion under the definitional semantics
-   (and under the real VM without the checker) but is rejected by the static checker. ---- *)
+(* ---- C07 (checker as of 7412af6).  [evaluates]: the definitional semantics runs the program to completion
+   (so does the real VM without the checker). ---- *)
 Definition evaluates (p : prog) : bool :=
   match sem_prog bits_ops 60 [] true true p with Ok _ => true | _ => false end.
-Definition checker_rejects (p : prog) : bool :=
+Definition checker_result (p : prog) : option bool :=
   match cstmts_of p with
-  | Some cs => match check_stmts cs [] with None => true | Some _ => false end
-  | None => false
+  | Some cs => Some (match check_stmts cs [] with Some _ => true | None => false end)
+  | None => None
   end.
+Definition checker_rejects (p : prog) : bool := match checker_result p with Some false => true | _ => false end.
+Definition checker_accepts (p : prog) : bool := match checker_result p with Some true => true | _ => false end.
 Local Close Scope Z_scope.
 
-(* `+` on lists whose element shapes differ
+(* ---- Known classes of the current checker: evaluates under Sem.v, rejected by the checker ---- *)
+(* K1: `+` on lists whose element shapes differ
      let r = [1] + ["a"]; *)
 Definition k_list_concat : prog := [SLet (b "r") (EBin Add (EList [(EInt (1)%Z)]) (EList [(EStr (b "a"))]))].
 Example k_list_concat_evaluates : evaluates k_list_concat = true. Proof. vm_compute. reflexivity. Qed.
 Example k_list_concat_rejected : checker_rejects k_list_concat = true. Proof. vm_compute. reflexivity. Qed.
+Example k_list_concat_classified : known_c07 k_list_concat = true. Proof. vm_compute. reflexivity. Qed.
 
-(* a concatenation keeps the left list's shape, the element taken from the right part is then mistyped
+(* K1b: a concatenation keeps the left list's shape, the element taken from the right part is then mistyped
      let r = ([1] + [2, "a"]).2 + "b"; *)
 Definition k_list_concat_index : prog := [SLet (b "r") (EBin Add (EBin DOT (EGroup (EBin Add (EList [(EInt (1)%Z)]) (EList [(EInt (2)%Z); (EStr (b "a"))]))) (EInt (2)%Z)) (EStr (b "b")))].
 Example k_list_concat_index_evaluates : evaluates k_list_concat_index = true. Proof. vm_compute. reflexivity. Qed.
 Example k_list_concat_index_rejected : checker_rejects k_list_concat_index = true. Proof. vm_compute. reflexivity. Qed.
+Example k_list_concat_index_classified : known_c07 k_list_concat_index = true. Proof. vm_compute. reflexivity. Qed.
 
-(* two empty lists that come from lists of different element type
+(* K2: two empty lists that come from lists of different element type
      let r = filter(func(x) => false, [1]) + filter(func(x) => false, ["a"]); *)
 Definition k_empty_lists : prog := [SLet (b "r") (EBin Add (EFilter (EFunc [(b "x")] (EBool false)) (EList [(EInt (1)%Z)])) (EFilter (EFunc [(b "x")] (EBool false)) (EList [(EStr (b "a"))])))].
 Example k_empty_lists_evaluates : evaluates k_empty_lists = true. Proof. vm_compute. reflexivity. Qed.
 Example k_empty_lists_rejected : checker_rejects k_empty_lists = true. Proof. vm_compute. reflexivity. Qed.
+Example k_empty_lists_classified : known_c07 k_empty_lists = true. Proof. vm_compute. reflexivity. Qed.
 
-(* map over a tuple
-     let r = map(func(k,v) => [k,v], {a=1}); *)
-Definition k_map_tuple : prog := [SLet (b "r") (EMap (EFunc [(b "k"); (b "v")] (EList [(ESym (b "k")); (ESym (b "v"))])) (ETuple [((b "a"), (EInt (1)%Z))]))].
-Example k_map_tuple_evaluates : evaluates k_map_tuple = true. Proof. vm_compute. reflexivity. Qed.
-Example k_map_tuple_rejected : checker_rejects k_map_tuple = true. Proof. vm_compute. reflexivity. Qed.
-
-(* map over a string
-     let r = map(func(c) => c, "abc"); *)
-Definition k_map_str : prog := [SLet (b "r") (EMap (EFunc [(b "c")] (ESym (b "c"))) (EStr (b "abc")))].
-Example k_map_str_evaluates : evaluates k_map_str = true. Proof. vm_compute. reflexivity. Qed.
-Example k_map_str_rejected : checker_rejects k_map_str = true. Proof. vm_compute. reflexivity. Qed.
-
-(* filter over a string
-     let r = filter(func(c) => true, "abc"); *)
-Definition k_filter_str : prog := [SLet (b "r") (EFilter (EFunc [(b "c")] (EBool true)) (EStr (b "abc")))].
-Example k_filter_str_evaluates : evaluates k_filter_str = true. Proof. vm_compute. reflexivity. Qed.
-Example k_filter_str_rejected : checker_rejects k_filter_str = true. Proof. vm_compute. reflexivity. Qed.
-
-(* reduce over a string
-     let r = reduce(func(acc, c) => acc + c, "", "abc"); *)
-Definition k_reduce_str : prog := [SLet (b "r") (EReduce (EFunc [(b "acc"); (b "c")] (EBin Add (ESym (b "acc")) (ESym (b "c")))) (EStr (b "")) (EStr (b "abc")))].
-Example k_reduce_str_evaluates : evaluates k_reduce_str = true. Proof. vm_compute. reflexivity. Qed.
-Example k_reduce_str_rejected : checker_rejects k_reduce_str = true. Proof. vm_compute. reflexivity. Qed.
-
-(* reduce over a tuple
-     let r = reduce(func(acc, k, v) => acc + v, 0, {a=1}); *)
-Definition k_reduce_tuple : prog := [SLet (b "r") (EReduce (EFunc [(b "acc"); (b "k"); (b "v")] (EBin Add (ESym (b "acc")) (ESym (b "v")))) (EInt (0)%Z) (ETuple [((b "a"), (EInt (1)%Z))]))].
-Example k_reduce_tuple_evaluates : evaluates k_reduce_tuple = true. Proof. vm_compute. reflexivity. Qed.
-Example k_reduce_tuple_rejected : checker_rejects k_reduce_tuple = true. Proof. vm_compute. reflexivity. Qed.
-
-(* map/filter/reduce over a list element or a select result (shape Narrowed)
-     let r = map(func(x) => x, [[1]].0); *)
-Definition k_map_narrowed : prog := [SLet (b "r") (EMap (EFunc [(b "x")] (ESym (b "x"))) (EBin DOT (EList [(EList [(EInt (1)%Z)])]) (EInt (0)%Z)))].
-Example k_map_narrowed_evaluates : evaluates k_map_narrowed = true. Proof. vm_compute. reflexivity. Qed.
-Example k_map_narrowed_rejected : checker_rejects k_map_narrowed = true. Proof. vm_compute. reflexivity. Qed.
-
-(* the default of a select is not part of its shape
-     let r = (select ("x", 1) => {a = "s"}) + 1; *)
-Definition k_select_default : prog := [SLet (b "r") (EBin Add (EGroup (ESelect (EStr (b "x")) (Some (EInt (1)%Z)) [((b "a"), (EStr (b "s")))])) (EInt (1)%Z))].
-Example k_select_default_evaluates : evaluates k_select_default = true. Proof. vm_compute. reflexivity. Qed.
-Example k_select_default_rejected : checker_rejects k_select_default = true. Proof. vm_compute. reflexivity. Qed.
-
-(* a function parameter is typed as the outer binding of the same name
-     let a = 1; let f = func(a) => a + "s"; let r = f("x"); *)
-Definition k_param_shadow : prog := [SLet (b "a") (EInt (1)%Z); SLet (b "f") (EFunc [(b "a")] (EBin Add (ESym (b "a")) (EStr (b "s")))); SLet (b "r") (ECall (ESym (b "f")) [(EStr (b "x"))])].
-Example k_param_shadow_evaluates : evaluates k_param_shadow = true. Proof. vm_compute. reflexivity. Qed.
-Example k_param_shadow_rejected : checker_rejects k_param_shadow = true. Proof. vm_compute. reflexivity. Qed.
-
-(* calling a function through a field selector
-     let t = {f = func(x) => x}; let r = t.f(1); *)
-Definition k_method_call : prog := [SLet (b "t") (ETuple [((b "f"), (EFunc [(b "x")] (ESym (b "x"))))]); SLet (b "r") (EBin DOT (ESym (b "t")) (ECall (ESym (b "f")) [(EInt (1)%Z)]))].
-Example k_method_call_evaluates : evaluates k_method_call = true. Proof. vm_compute. reflexivity. Qed.
-Example k_method_call_rejected : checker_rejects k_method_call = true. Proof. vm_compute. reflexivity. Qed.
-
-(* copy keeps the first declaration of an overridden field
-     let b0 = {a=1}; let x = b0{a=NULL}; let y = x{a="s"}; let z = y.a + "t"; *)
-Definition k_copy_null : prog := [SLet (b "b0") (ETuple [((b "a"), (EInt (1)%Z))]); SLet (b "x") (ECopy (ESym (b "b0")) [((b "a"), ENull)]); SLet (b "y") (ECopy (ESym (b "x")) [((b "a"), (EStr (b "s")))]); SLet (b "z") (EBin Add (EBin DOT (ESym (b "y")) (ESym (b "a"))) (EStr (b "t")))].
-Example k_copy_null_evaluates : evaluates k_copy_null = true. Proof. vm_compute. reflexivity. Qed.
-Example k_copy_null_rejected : checker_rejects k_copy_null = true. Proof. vm_compute. reflexivity. Qed.
-
-(* field access through an element of a list built from list elements (Narrowed inside Narrowed)
-     let l = [{a = 1}]; let m = [l.0]; let r = m.0.a; *)
-Definition k_nested_narrowed : prog := [SLet (b "l") (EList [(ETuple [((b "a"), (EInt (1)%Z))])]); SLet (b "m") (EList [(EBin DOT (ESym (b "l")) (EInt (0)%Z))]); SLet (b "r") (EBin DOT (EBin DOT (ESym (b "m")) (EInt (0)%Z)) (ESym (b "a")))].
-Example k_nested_narrowed_evaluates : evaluates k_nested_narrowed = true. Proof. vm_compute. reflexivity. Qed.
-Example k_nested_narrowed_rejected : checker_rejects k_nested_narrowed = true. Proof. vm_compute. reflexivity. Qed.
-
-(* && / || return their right operand as it is
+(* K10: && / || return their right operand as it is
      let x = true && 5; *)
 Definition k_and_rhs : prog := [SLet (b "x") (EBin AND (EBool true) (EInt (5)%Z))].
 Example k_and_rhs_evaluates : evaluates k_and_rhs = true. Proof. vm_compute. reflexivity. Qed.
 Example k_and_rhs_rejected : checker_rejects k_and_rhs = true. Proof. vm_compute. reflexivity. Qed.
+Example k_and_rhs_classified : known_c07 k_and_rhs = true. Proof. vm_compute. reflexivity. Qed.
+
+(* K10
+     let x = false || "s"; *)
+Definition k_or_rhs : prog := [SLet (b "x") (EBin OR (EBool false) (EStr (b "s")))].
+Example k_or_rhs_evaluates : evaluates k_or_rhs = true. Proof. vm_compute. reflexivity. Qed.
+Example k_or_rhs_rejected : checker_rejects k_or_rhs = true. Proof. vm_compute. reflexivity. Qed.
+Example k_or_rhs_classified : known_c07 k_or_rhs = true. Proof. vm_compute. reflexivity. Qed.
+
+(* N7: the right operand of && / || is checked although it is never evaluated
+     let n = false && (not 5); *)
+Definition n_shortcircuit : prog := [SLet (b "n") (EBin AND (EBool false) (EGroup (ENot (EInt (5)%Z))))].
+Example n_shortcircuit_evaluates : evaluates n_shortcircuit = true. Proof. vm_compute. reflexivity. Qed.
+Example n_shortcircuit_rejected : checker_rejects n_shortcircuit = true. Proof. vm_compute. reflexivity. Qed.
+Example n_shortcircuit_classified : known_c07 n_shortcircuit = false /\ known_c07_wide n_shortcircuit = true. Proof. split; vm_compute; reflexivity. Qed.
+
+(* N2: select merges its arms with `equivalent`: {a} hides {a, b}
+     let r = (select ("y", 0) => {x = {a = 1}, y = {a = 1, b = "s"}}).b; *)
+Definition n_select_equivalent : prog := [SLet (b "r") (EBin DOT (EGroup (ESelect (EStr (b "y")) (Some (EInt (0)%Z)) [((b "x"), (ETuple [((b "a"), (EInt (1)%Z))])); ((b "y"), (ETuple [((b "a"), (EInt (1)%Z)); ((b "b"), (EStr (b "s")))]))])) (ESym (b "b")))].
+Example n_select_equivalent_evaluates : evaluates n_select_equivalent = true. Proof. vm_compute. reflexivity. Qed.
+Example n_select_equivalent_rejected : checker_rejects n_select_equivalent = true. Proof. vm_compute. reflexivity. Qed.
+Example n_select_equivalent_not_classified : known_c07_wide n_select_equivalent = false. Proof. vm_compute. reflexivity. Qed.
+
+(* N4: a parameter is narrowed by a branch of the body that this call does not execute
+     let f = func(x) => select (x is "int", "s") => {"true" = x + 1}; let r = f("a"); *)
+Definition n_param_branch : prog := [SLet (b "f") (EFunc [(b "x")] (ESelect (EBin IS (ESym (b "x")) (EStr (b "int"))) (Some (EStr (b "s"))) [((b "true"), (EBin Add (ESym (b "x")) (EInt (1)%Z)))])); SLet (b "r") (ECall (ESym (b "f")) [(EStr (b "a"))])].
+Example n_param_branch_evaluates : evaluates n_param_branch = true. Proof. vm_compute. reflexivity. Qed.
+Example n_param_branch_rejected : checker_rejects n_param_branch = true. Proof. vm_compute. reflexivity. Qed.
+Example n_param_branch_not_classified : known_c07_wide n_param_branch = false. Proof. vm_compute. reflexivity. Qed.
+
+(* ---- former Known classes: evaluate under Sem.v AND are accepted by the checker now ---- *)
+(* K3 (34a8887)
+     let r = map(func(k,v) => [k,v], {a=1}); *)
+Definition a_map_tuple : prog := [SLet (b "r") (EMap (EFunc [(b "k"); (b "v")] (EList [(ESym (b "k")); (ESym (b "v"))])) (ETuple [((b "a"), (EInt (1)%Z))]))].
+Example a_map_tuple_evaluates : evaluates a_map_tuple = true. Proof. vm_compute. reflexivity. Qed.
+Example a_map_tuple_accepted : checker_accepts a_map_tuple = true. Proof. vm_compute. reflexivity. Qed.
+Example a_map_tuple_unclassified : known_c07_wide a_map_tuple = false. Proof. vm_compute. reflexivity. Qed.
+
+(* K3
+     let r = map(func(c) => c, "abc"); *)
+Definition a_map_str : prog := [SLet (b "r") (EMap (EFunc [(b "c")] (ESym (b "c"))) (EStr (b "abc")))].
+Example a_map_str_evaluates : evaluates a_map_str = true. Proof. vm_compute. reflexivity. Qed.
+Example a_map_str_accepted : checker_accepts a_map_str = true. Proof. vm_compute. reflexivity. Qed.
+Example a_map_str_unclassified : known_c07_wide a_map_str = false. Proof. vm_compute. reflexivity. Qed.
+
+(* K3
+     let r = filter(func(c) => true, "abc"); *)
+Definition a_filter_str : prog := [SLet (b "r") (EFilter (EFunc [(b "c")] (EBool true)) (EStr (b "abc")))].
+Example a_filter_str_evaluates : evaluates a_filter_str = true. Proof. vm_compute. reflexivity. Qed.
+Example a_filter_str_accepted : checker_accepts a_filter_str = true. Proof. vm_compute. reflexivity. Qed.
+Example a_filter_str_unclassified : known_c07_wide a_filter_str = false. Proof. vm_compute. reflexivity. Qed.
+
+(* K3
+     let r = reduce(func(acc, c) => acc + c, "", "abc"); *)
+Definition a_reduce_str : prog := [SLet (b "r") (EReduce (EFunc [(b "acc"); (b "c")] (EBin Add (ESym (b "acc")) (ESym (b "c")))) (EStr (b "")) (EStr (b "abc")))].
+Example a_reduce_str_evaluates : evaluates a_reduce_str = true. Proof. vm_compute. reflexivity. Qed.
+Example a_reduce_str_accepted : checker_accepts a_reduce_str = true. Proof. vm_compute. reflexivity. Qed.
+Example a_reduce_str_unclassified : known_c07_wide a_reduce_str = false. Proof. vm_compute. reflexivity. Qed.
+
+(* K3
+     let r = reduce(func(acc, k, v) => acc + v, 0, {a=1}); *)
+Definition a_reduce_tuple : prog := [SLet (b "r") (EReduce (EFunc [(b "acc"); (b "k"); (b "v")] (EBin Add (ESym (b "acc")) (ESym (b "v")))) (EInt (0)%Z) (ETuple [((b "a"), (EInt (1)%Z))]))].
+Example a_reduce_tuple_evaluates : evaluates a_reduce_tuple = true. Proof. vm_compute. reflexivity. Qed.
+Example a_reduce_tuple_accepted : checker_accepts a_reduce_tuple = true. Proof. vm_compute. reflexivity. Qed.
+Example a_reduce_tuple_unclassified : known_c07_wide a_reduce_tuple = false. Proof. vm_compute. reflexivity. Qed.
+
+(* K4 (34a8887, bcbae8d)
+     let r = map(func(x) => x, [[1]].0); *)
+Definition a_map_narrowed : prog := [SLet (b "r") (EMap (EFunc [(b "x")] (ESym (b "x"))) (EBin DOT (EList [(EList [(EInt (1)%Z)])]) (EInt (0)%Z)))].
+Example a_map_narrowed_evaluates : evaluates a_map_narrowed = true. Proof. vm_compute. reflexivity. Qed.
+Example a_map_narrowed_accepted : checker_accepts a_map_narrowed = true. Proof. vm_compute. reflexivity. Qed.
+Example a_map_narrowed_unclassified : known_c07_wide a_map_narrowed = false. Proof. vm_compute. reflexivity. Qed.
+
+(* K4
+     let r = filter(func(x) => true, select (true) => {"true" = [1], "false" = []}); *)
+Definition a_filter_select : prog := [SLet (b "r") (EFilter (EFunc [(b "x")] (EBool true)) (ESelect (EBool true) None [((b "true"), (EList [(EInt (1)%Z)])); ((b "false"), (EList []))]))].
+Example a_filter_select_evaluates : evaluates a_filter_select = true. Proof. vm_compute. reflexivity. Qed.
+Example a_filter_select_accepted : checker_accepts a_filter_select = true. Proof. vm_compute. reflexivity. Qed.
+Example a_filter_select_unclassified : known_c07_wide a_filter_select = false. Proof. vm_compute. reflexivity. Qed.
+
+(* K5 (1140c06)
+     let r = (select ("x", 1) => {a = "s"}) + 1; *)
+Definition a_select_default : prog := [SLet (b "r") (EBin Add (EGroup (ESelect (EStr (b "x")) (Some (EInt (1)%Z)) [((b "a"), (EStr (b "s")))])) (EInt (1)%Z))].
+Example a_select_default_evaluates : evaluates a_select_default = true. Proof. vm_compute. reflexivity. Qed.
+Example a_select_default_accepted : checker_accepts a_select_default = true. Proof. vm_compute. reflexivity. Qed.
+Example a_select_default_unclassified : known_c07_wide a_select_default = false. Proof. vm_compute. reflexivity. Qed.
+
+(* K6 (f1505ba)
+     let a = 1; let f = func(a) => a + "s"; let r = f("x"); *)
+Definition a_param_shadow : prog := [SLet (b "a") (EInt (1)%Z); SLet (b "f") (EFunc [(b "a")] (EBin Add (ESym (b "a")) (EStr (b "s")))); SLet (b "r") (ECall (ESym (b "f")) [(EStr (b "x"))])].
+Example a_param_shadow_evaluates : evaluates a_param_shadow = true. Proof. vm_compute. reflexivity. Qed.
+Example a_param_shadow_accepted : checker_accepts a_param_shadow = true. Proof. vm_compute. reflexivity. Qed.
+Example a_param_shadow_unclassified : known_c07_wide a_param_shadow = false. Proof. vm_compute. reflexivity. Qed.
+
+(* K7 (9d31dcf)
+     let t = {f = func(x) => x}; let r = t.f(1); *)
+Definition a_method_call : prog := [SLet (b "t") (ETuple [((b "f"), (EFunc [(b "x")] (ESym (b "x"))))]); SLet (b "r") (EBin DOT (ESym (b "t")) (ECall (ESym (b "f")) [(EInt (1)%Z)]))].
+Example a_method_call_evaluates : evaluates a_method_call = true. Proof. vm_compute. reflexivity. Qed.
+Example a_method_call_accepted : checker_accepts a_method_call = true. Proof. vm_compute. reflexivity. Qed.
+Example a_method_call_unclassified : known_c07_wide a_method_call = false. Proof. vm_compute. reflexivity. Qed.
+
+(* K8 (05372e0)
+     let b0 = {a=1}; let x = b0{a=NULL}; let y = x{a="s"}; let z = y.a + "t"; *)
+Definition a_copy_null : prog := [SLet (b "b0") (ETuple [((b "a"), (EInt (1)%Z))]); SLet (b "x") (ECopy (ESym (b "b0")) [((b "a"), ENull)]); SLet (b "y") (ECopy (ESym (b "x")) [((b "a"), (EStr (b "s")))]); SLet (b "z") (EBin Add (EBin DOT (ESym (b "y")) (ESym (b "a"))) (EStr (b "t")))].
+Example a_copy_null_evaluates : evaluates a_copy_null = true. Proof. vm_compute. reflexivity. Qed.
+Example a_copy_null_accepted : checker_accepts a_copy_null = true. Proof. vm_compute. reflexivity. Qed.
+Example a_copy_null_unclassified : known_c07_wide a_copy_null = false. Proof. vm_compute. reflexivity. Qed.
+
+(* K9 (30b36ca)
+     let l = [{a = 1}]; let m = [l.0]; let r = m.0.a; *)
+Definition a_nested_narrowed : prog := [SLet (b "l") (EList [(ETuple [((b "a"), (EInt (1)%Z))])]); SLet (b "m") (EList [(EBin DOT (ESym (b "l")) (EInt (0)%Z))]); SLet (b "r") (EBin DOT (EBin DOT (ESym (b "m")) (EInt (0)%Z)) (ESym (b "a")))].
+Example a_nested_narrowed_evaluates : evaluates a_nested_narrowed = true. Proof. vm_compute. reflexivity. Qed.
+Example a_nested_narrowed_accepted : checker_accepts a_nested_narrowed = true. Proof. vm_compute. reflexivity. Qed.
+Example a_nested_narrowed_unclassified : known_c07_wide a_nested_narrowed = false. Proof. vm_compute. reflexivity. Qed.
+
+(* K9
+     let l = [[1]]; let m = [l.0]; let n = m.0; let r = n.0; *)
+Definition a_nested_narrowed_index : prog := [SLet (b "l") (EList [(EList [(EInt (1)%Z)])]); SLet (b "m") (EList [(EBin DOT (ESym (b "l")) (EInt (0)%Z))]); SLet (b "n") (EBin DOT (ESym (b "m")) (EInt (0)%Z)); SLet (b "r") (EBin DOT (ESym (b "n")) (EInt (0)%Z))].
+Example a_nested_narrowed_index_evaluates : evaluates a_nested_narrowed_index = true. Proof. vm_compute. reflexivity. Qed.
+Example a_nested_narrowed_index_accepted : checker_accepts a_nested_narrowed_index = true. Proof. vm_compute. reflexivity. Qed.
+Example a_nested_narrowed_index_unclassified : known_c07_wide a_nested_narrowed_index = false. Proof. vm_compute. reflexivity. Qed.
+
+(* N1 (7412af6)
+     let f = func(x) => x; let x = 1; let r = f("s"); let y = x + 1; *)
+Definition a_call_outer_binding : prog := [SLet (b "f") (EFunc [(b "x")] (ESym (b "x"))); SLet (b "x") (EInt (1)%Z); SLet (b "r") (ECall (ESym (b "f")) [(EStr (b "s"))]); SLet (b "y") (EBin Add (ESym (b "x")) (EInt (1)%Z))].
+Example a_call_outer_binding_evaluates : evaluates a_call_outer_binding = true. Proof. vm_compute. reflexivity. Qed.
+Example a_call_outer_binding_accepted : checker_accepts a_call_outer_binding = true. Proof. vm_compute. reflexivity. Qed.
+Example a_call_outer_binding_unclassified : known_c07_wide a_call_outer_binding = false. Proof. vm_compute. reflexivity. Qed.
+
+(* N3 (a3555a1)
+     let l = [true]; let r = not ([l.0].0); *)
+Definition a_not_nested : prog := [SLet (b "l") (EList [(EBool true)]); SLet (b "r") (ENot (EGroup (EBin DOT (EList [(EBin DOT (ESym (b "l")) (EInt (0)%Z))]) (EInt (0)%Z))))].
+Example a_not_nested_evaluates : evaluates a_not_nested = true. Proof. vm_compute. reflexivity. Qed.
+Example a_not_nested_accepted : checker_accepts a_not_nested = true. Proof. vm_compute. reflexivity. Qed.
+Example a_not_nested_unclassified : known_c07_wide a_not_nested = false. Proof. vm_compute. reflexivity. Qed.
+
+(* N5 (bcbae8d)
+     let s = select ("a", "zz") => {a = "abc"}; let r = map(func(c) => c, s); let q = r + "x"; *)
+Definition a_map_select_str : prog := [SLet (b "s") (ESelect (EStr (b "a")) (Some (EStr (b "zz"))) [((b "a"), (EStr (b "abc")))]); SLet (b "r") (EMap (EFunc [(b "c")] (ESym (b "c"))) (ESym (b "s"))); SLet (b "q") (EBin Add (ESym (b "r")) (EStr (b "x")))].
+Example a_map_select_str_evaluates : evaluates a_map_select_str = true. Proof. vm_compute. reflexivity. Qed.
+Example a_map_select_str_accepted : checker_accepts a_map_select_str = true. Proof. vm_compute. reflexivity. Qed.
+Example a_map_select_str_unclassified : known_c07_wide a_map_select_str = false. Proof. vm_compute. reflexivity. Qed.
+
+(* N6 (a1564a2, 4c78d26)
+     let r = "a" + filter(func(c) => true, map(func(c) => c, "bc")); *)
+Definition a_filter_any : prog := [SLet (b "r") (EBin Add (EStr (b "a")) (EFilter (EFunc [(b "c")] (EBool true)) (EMap (EFunc [(b "c")] (ESym (b "c"))) (EStr (b "bc")))))].
+Example a_filter_any_evaluates : evaluates a_filter_any = true. Proof. vm_compute. reflexivity. Qed.
+Example a_filter_any_accepted : checker_accepts a_filter_any = true. Proof. vm_compute. reflexivity. Qed.
+Example a_filter_any_unclassified : known_c07_wide a_filter_any = false. Proof. vm_compute. reflexivity. Qed.
+
+(* ---- programs of fragment_prog (covered by check_sound_prog) ---- *)
+(* let id = func(x) => x; let t = {f = id, m = {a = 1}}; let r = t.f(1); let c = t.m{a = 2}; *)
+Definition f_method : prog := [SLet (b "id") (EFunc [(b "x")] (ESym (b "x"))); SLet (b "t") (ETuple [((b "f"), (ESym (b "id"))); ((b "m"), (ETuple [((b "a"), (EInt (1)%Z))]))]); SLet (b "r") (EBin DOT (ESym (b "t")) (ECall (ESym (b "f")) [(EInt (1)%Z)])); SLet (b "c") (EBin DOT (ESym (b "t")) (ECopy (ESym (b "m")) [((b "a"), (EInt (2)%Z))]))].
+Example f_method_in_fragment : fragment_prog [] f_method = true. Proof. vm_compute. reflexivity. Qed.
+Example f_method_evaluates : evaluates f_method = true. Proof. vm_compute. reflexivity. Qed.
+Example f_method_accepted : checker_accepts f_method = true. Proof. vm_compute. reflexivity. Qed.
+
+(* let k = "x"; let r = (select (k, 1) => {a = 2, b = 3}) + 1; let s = select (k, {a = 1}) => {y = {b = "s"}}; let q = s.a; *)
+Definition f_select : prog := [SLet (b "k") (EStr (b "x")); SLet (b "r") (EBin Add (EGroup (ESelect (ESym (b "k")) (Some (EInt (1)%Z)) [((b "a"), (EInt (2)%Z)); ((b "b"), (EInt (3)%Z))])) (EInt (1)%Z)); SLet (b "s") (ESelect (ESym (b "k")) (Some (ETuple [((b "a"), (EInt (1)%Z))])) [((b "y"), (ETuple [((b "b"), (EStr (b "s")))]))]); SLet (b "q") (EBin DOT (ESym (b "s")) (ESym (b "a")))].
+Example f_select_in_fragment : fragment_prog [] f_select = true. Proof. vm_compute. reflexivity. Qed.
+Example f_select_evaluates : evaluates f_select = true. Proof. vm_compute. reflexivity. Qed.
+Example f_select_accepted : checker_accepts f_select = true. Proof. vm_compute. reflexivity. Qed.
+
+(* let l = [{a = 1}, {a = 2}]; let m = [l.0]; let r = m.0.a; let n = filter(func(x) => true, l); let e = n.0.a; *)
+Definition f_lists : prog := [SLet (b "l") (EList [(ETuple [((b "a"), (EInt (1)%Z))]); (ETuple [((b "a"), (EInt (2)%Z))])]); SLet (b "m") (EList [(EBin DOT (ESym (b "l")) (EInt (0)%Z))]); SLet (b "r") (EBin DOT (EBin DOT (ESym (b "m")) (EInt (0)%Z)) (ESym (b "a"))); SLet (b "n") (EFilter (EFunc [(b "x")] (EBool true)) (ESym (b "l"))); SLet (b "e") (EBin DOT (EBin DOT (ESym (b "n")) (EInt (0)%Z)) (ESym (b "a")))].
+Example f_lists_in_fragment : fragment_prog [] f_lists = true. Proof. vm_compute. reflexivity. Qed.
+Example f_lists_evaluates : evaluates f_lists = true. Proof. vm_compute. reflexivity. Qed.
+Example f_lists_accepted : checker_accepts f_lists = true. Proof. vm_compute. reflexivity. Qed.
+
+(* let t = {a = 1}; let r = map(func(k, v) => [k, v], t); let s = filter(func(c) => true, "abc") + "x"; let u = map(func(c) => c, "abc"); *)
+Definition f_mapfilter : prog := [SLet (b "t") (ETuple [((b "a"), (EInt (1)%Z))]); SLet (b "r") (EMap (EFunc [(b "k"); (b "v")] (EList [(ESym (b "k")); (ESym (b "v"))])) (ESym (b "t"))); SLet (b "s") (EBin Add (EFilter (EFunc [(b "c")] (EBool true)) (EStr (b "abc"))) (EStr (b "x"))); SLet (b "u") (EMap (EFunc [(b "c")] (ESym (b "c"))) (EStr (b "abc")))].
+Example f_mapfilter_in_fragment : fragment_prog [] f_mapfilter = true. Proof. vm_compute. reflexivity. Qed.
+Example f_mapfilter_evaluates : evaluates f_mapfilter = true. Proof. vm_compute. reflexivity. Qed.
+Example f_mapfilter_accepted : checker_accepts f_mapfilter = true. Proof. vm_compute. reflexivity. Qed.
 
 
 (* ---- C07: a program of the fragment ---- *)
@@ -210,4 +324,5 @@ Definition frag_prog : prog :=
    SLet (b "l") (EList [ESym (b "n"); ECast CInt (EStr (b "7"))])].
 Example frag_prog_in_fragment : fragment_prog [] frag_prog = true. Proof. vm_compute. reflexivity. Qed.
 Example frag_prog_evaluates : evaluates frag_prog = true. Proof. vm_compute. reflexivity. Qed.
-Example frag_prog_accepted : checker_rejects frag_prog = false. Proof. vm_compute. reflexivity. Qed.
+Example frag_prog_accepted : checker_accepts frag_prog = true. Proof. vm_compute. reflexivity. Qed.
+Example frag_prog_unclassified : known_c07_wide frag_prog = false. Proof. vm_compute. reflexivity. Qed.
